@@ -704,13 +704,36 @@ class SU64(Sym):
         return f"SU64({self.t})"
 
 
+class AttrDict(dict):
+    """fields of a symbolic object. Contracts read them with .get(name) / [name]; if the field does not exist
+    (the class was edited: attribute renamed or dropped) the contract cannot be evaluated -- undecided, never a
+    verdict. Use .get(name, default) where absence is meaningful."""
+    _NO = object()
+
+    def get(self, name, default=_NO):
+        if name in self:
+            return dict.__getitem__(self, name)
+        if default is AttrDict._NO:
+            raise Unsupported(f"the contract reads attribute {name!r}, which the object does not have (class edited?)")
+        return default
+
+    def __getitem__(self, name):
+        if name not in self:
+            raise Unsupported(f"the contract reads attribute {name!r}, which the object does not have (class edited?)")
+        return dict.__getitem__(self, name)
+
+
 class SObj:
     """Instance of a repo class with (possibly symbolic) attributes."""
 
     def __init__(self, cls, attrs=None):
         object.__setattr__(self, "cls", cls)
-        object.__setattr__(self, "attrs", attrs if attrs is not None else {})
+        object.__setattr__(self, "attrs", AttrDict(attrs) if attrs is not None else AttrDict())
         object.__setattr__(self, "ghost", {})
+        # built by a harness from a dictionary of fields (not by interpreting __init__): the field NAMES are the
+        # harness's picture of the class; if the code reads a field the harness does not know, the class
+        # representation has changed and the unit is undecided (not an AttributeError of the program)
+        object.__setattr__(self, "harness_built", attrs is not None)
 
     def __repr__(self):
         return f"<SObj {self.cls.__name__} {list(self.attrs)}>"
